@@ -71,6 +71,9 @@ var c03Family = map[string]string{
 }
 
 func runC03(c *Ctx) {
+	// the label validators decided exactly (c03exact.go): for those the
+	// structural rules about the same function are only the fall-back
+	exactLabels := c03LabelsExact(c, "C03")
 	c.L.Trust("go/types + go/ssa", "/verif/sa/errshape", "/verif/sa/lincon", "/verif/sa/boolfn", "/verif/sa/skel", "idna.ToASCII treated as opaque")
 	c.L.Assumef("length windows [1,63], [2,16], [1,253] and the rune classes are read from the property statement")
 	c.L.Floor("C03.error-shape", 7)
@@ -198,6 +201,9 @@ func runC03(c *Ctx) {
 				missing = append(missing, a)
 			}
 		}
+		if exactLabels[s.name] {
+			continue
+		}
 		c.check(tree != "" && len(missing) == 0, "C03.layering", f, "decision skeleton contains the required checks of the grammar", nil,
 			sprintf("missing: %v; skeleton: %s", missing, clip(tree, 500)))
 	}
@@ -217,7 +223,7 @@ func runC03(c *Ctx) {
 	a.Hook = func(h *lincon.Handle) {
 		fn := h.Instr.Parent()
 		s, ok := specOf[fn]
-		if !ok || subject[fn] == nil {
+		if !ok || subject[fn] == nil || exactLabels[s.name] {
 			return
 		}
 		switch in := h.Instr.(type) {
@@ -245,12 +251,24 @@ func runC03(c *Ctx) {
 	}
 	recordObligations(c, a, "C03", func(o *lincon.Oblig) bool { return strings.HasPrefix(o.Kind, "assert:") })
 
+	// floors follow what was left to the structural rules
+	nExact := 0
+	for _, s := range c03Specs {
+		if exactLabels[s.name] {
+			nExact++
+		}
+	}
+	if nExact > 0 {
+		c.L.Floor("C03.accept-window", 7-nExact)
+		c.L.Floor("C03.reject-window", max(5-2*nExact, 0))
+		c.L.Floor("C03.layering", 7-nExact)
+	}
 	// ---- R3 rune classes ----
-	c03Runes(c)
-	c03LabelTables(c, sp)
+	c03Runes(c, exactLabels["ValidateTLDLabel"] && exactLabels["isValidTLDLabel"])
+	c03LabelTables(c, sp, exactLabels)
 }
 
-func c03Runes(c *Ctx) {
+func c03Runes(c *Ctx, tldExact bool) {
 	m := boolfn.New()
 	ev := &boolfn.Eval{M: m, Entered: map[string]bool{}}
 	ev.InScope = core.InModule
@@ -296,7 +314,10 @@ func c03Runes(c *Ctx) {
 	}
 	// hasValidTLDChars: true iff some rune is outside [0-9]
 	f := c.fn("netutil", "hasValidTLDChars")
-	if f == nil {
+	if f == nil || tldExact {
+		if tldExact {
+			c.L.Floor("C03.rune-class", 2)
+		}
 		return
 	}
 	var rv ssa.Value
@@ -661,7 +682,7 @@ func reachingErrValues(v ssa.Value, at ssa.Instruction) []ssa.Value {
 // class, whether it starts with '_', and the verdicts of the validators it
 // delegates to (free Booleans, forced false where the delegated text is empty)
 // — and must accept exactly what the grammar says.
-func c03LabelTables(c *Ctx, sp *ssa.Package) {
+func c03LabelTables(c *Ctx, sp *ssa.Package, exact map[string]bool) {
 	c.L.Floor("C03.label-table", 3)
 	type input struct {
 		l      int64
@@ -753,9 +774,16 @@ func c03LabelTables(c *Ctx, sp *ssa.Package) {
 			return in.l >= 2 && in.l <= 16 && in.under && in.opaque["accepts(HostLabel,p0[1:])"]
 		}, "'_' + hostname label, 2..16 bytes"},
 	}
+	nLeft := 0
+	for _, spc := range specs {
+		if !exact[spc.fn] {
+			nLeft++
+		}
+	}
+	c.L.Floor("C03.label-table", nLeft)
 	for _, spc := range specs {
 		f := c.fn("netutil", spc.fn)
-		if f == nil {
+		if f == nil || exact[spc.fn] {
 			continue
 		}
 		b := &skel.Builder{Pkg: sp, Family: c03Family}
